@@ -475,129 +475,226 @@ def evictAll (s : State) (st : Store) : List Hash → State
     | none => evictAll s st rest
     | some e => evictAll (cbEvict s h e.conflict e.value 0) st rest
 
-/-! ## Client steps -/
+/-! ## Client steps
 
-def clientStep (cfg : Cfg) (s : State) (t : Tid) (ch : Choice) : Option State :=
-  match s.cl t, ch with
-  -- SetWithTTL ------------------------------------------------------------
-  | .setStart h c v cost ttl, .none =>
-    if s.closed then some (logEv (setCl s t .idle) (.setRet t v false))
-    else if ttlNone ttl then some (setCl s t (.setUpd ⟨.new, h, c, v, cost, Gen.zeroTime⟩))
-    else if ttlNegative ttl then some (logEv (setCl s t .idle) (.setRet t v false))
-    else some (setCl s t (.setUpd ⟨.new, h, c, v, cost, ttlExpiration s.clock ttl⟩))
-  | .setUpd i, .none =>
-    let (st, em, prev, ok) := storeUpdate cfg s.store s.em i
-    let s1 := { s with store := st, em := em }
-    if ok then some (setCl s1 t (.setExit i prev)) else some (setCl s1 t (.setSend i))
-  | .setExit i prev, .none =>
-    some (setCl (cbExit s prev) t (.setSend { i with flag := .upd }))
-  | .setSend i, .none =>
-    if s.buf.length < cfg.bufCap ∧ s.sendq = [] then
-      some (setCl { s with buf := s.buf ++ [.item i] } t (.setRetTrue i))
-    else some (setCl s t (.setRetDrop i))
-  | .setRetTrue i, .none => some (logEv (setCl s t .idle) (.setRet t i.value true))
-  | .setRetDrop i, .none =>
-    if dropIsUpdate i.flag.code then some (logEv (setCl s t .idle) (.setRet t i.value true))
-    else some (logEv (setCl (metAdd cfg s fun m => { m with dropSets := m.dropSets + 1 }) t .idle)
-                (.setRet t i.value false))
-  -- Del -------------------------------------------------------------------
-  | .delStart h c, .none =>
-    if s.closed then some (logEv (setCl s t .idle) (.delRet t h)) else
-    let (st, em, _, prev) := storeDel s.store s.em h c
-    some (setCl { s with store := st, em := em } t (.delExit h c prev))
-  | .delExit h c prev, .none => some (setCl (cbExit s prev) t (.delSend h c))
-  | .delSend h c, .none =>
-    some (sendBlocking cfg s t (.item ⟨.del, h, c, 0, 0, Gen.zeroTime⟩) (.delSent h) (.delBlocked h))
-  | .delSent h, .none => some (logEv (setCl s t .idle) (.delRet t h))
-  -- Wait ------------------------------------------------------------------
-  | .waitStart, .none =>
-    if s.closed then some (logEv (setCl s t .idle) (.waitRet t)) else some (setCl s t .waitSend)
-  | .waitSend, .none =>
-    let id := s.nextMarker
-    some (sendBlocking cfg { s with nextMarker := id + 1 } t (.marker id) (.waitRecv id) (.waitBlocked id))
-  | .waitRecv id, .none =>
-    if s.closedMarkers.contains id then some (setCl s t .waitDone) else none
-  | .waitDone, .none => some (logEv (setCl s t .idle) (.waitRet t))
-  -- Get -------------------------------------------------------------------
-  | .getStart h c, ch =>
-    if s.closed then some (logEv (setCl s t .idle) (.getRet t h c none)) else
-    -- ring push; the stripe may flush to the policy (kept) or be dropped
-    let s1 := { s with ringPending := s.ringPending + 1 }
-    match ch with
-    | .none => some (setCl s1 t (.getRead h c))
-    | .flush kept n =>
-      if n = 0 ∨ n > s1.ringPending then none else
-      let s2 := { s1 with ringPending := s1.ringPending - n }
-      let s3 := metAdd cfg s2 fun m =>
-        if kept then { m with keepGets := m.keepGets + BitVec.ofNat 64 n }
-        else { m with dropGets := m.dropGets + BitVec.ofNat 64 n }
-      some (setCl s3 t (.getRead h c))
-    | _ => none
-  | .getRead h c, .none => some (setCl s t (.getCheck h c (s.store.lookup h)))
-  | .getCheck h c e, .none => some (setCl s t (.getMetric h c (getResult c e s.clock)))
-  | .getMetric h c r, .none =>
-    let s1 := metAdd cfg s fun m =>
-      if r.isSome then { m with hit := m.hit + 1 } else { m with miss := m.miss + 1 }
-    some (logEv (setCl s1 t .idle) (.getRet t h c r))
-  -- GetTTL (no closed check in the real code) -------------------------------
-  | .ttlRead h c, .none => some (setCl s t (.ttlCheck h c (s.store.lookup h)))
-  | .ttlCheck h c e, .none =>
-    match getResult c e s.clock with
-    | none => some (logEv (setCl s t .idle) (.ttlRet t h c 0 false))
-    | some _ => some (setCl s t (.ttlExp h c))
-  | .ttlExp h c, .none =>
-    let exp := expirationOf s.store h
-    if getTTLNoExpiry exp then some (logEv (setCl s t .idle) (.ttlRet t h c 0 true))
-    else some (setCl s t (.ttlNow h c exp))
-  | .ttlNow h c exp, .none =>
-    if getTTLExpired s.clock exp then some (logEv (setCl s t .idle) (.ttlRet t h c 0 false))
-    else some (setCl s t (.ttlUntil h c exp))
-  | .ttlUntil h c exp, .none =>
-    some (logEv (setCl s t .idle) (.ttlRet t h c (getTTLRemaining s.clock exp) true))
-  -- IterValues ------------------------------------------------------------
-  | .iterStart stopAt, .none =>
-    if s.closed then some (logEv (setCl s t .idle) (.iterRet t [])) else
-    some (setCl s t (.iterShard 0 stopAt []))
-  | .iterShard k stopAt seen, .order ks =>
+One definition per program counter (small definitions keep case analysis in proofs
+cheap); `clientStep` dispatches on the pc.  Steps without a nondeterministic choice
+require `Choice.none`. -/
+
+def needNone (ch : Choice) (r : Option State) : Option State :=
+  match ch with
+  | .none => r
+  | _ => none
+
+-- SetWithTTL ------------------------------------------------------------
+def stSetStart (s : State) (t : Tid) (h : Hash) (c : Conf) (v : Val) (cost : Int) (ttl : Int) : State :=
+  if s.closed then logEv (setCl s t .idle) (.setRet t v false)
+  else if ttlNone ttl then setCl s t (.setUpd ⟨.new, h, c, v, cost, Gen.zeroTime⟩)
+  else if ttlNegative ttl then logEv (setCl s t .idle) (.setRet t v false)
+  else setCl s t (.setUpd ⟨.new, h, c, v, cost, ttlExpiration s.clock ttl⟩)
+
+def stSetUpd (cfg : Cfg) (s : State) (t : Tid) (i : Item) : State :=
+  let r := storeUpdate cfg s.store s.em i
+  let s1 := { s with store := r.1, em := r.2.1 }
+  if r.2.2.2 then setCl s1 t (.setExit i r.2.2.1) else setCl s1 t (.setSend i)
+
+def stSetExit (s : State) (t : Tid) (i : Item) (prev : Val) : State :=
+  setCl (cbExit s prev) t (.setSend { i with flag := .upd })
+
+def stSetSend (cfg : Cfg) (s : State) (t : Tid) (i : Item) : State :=
+  if s.buf.length < cfg.bufCap ∧ s.sendq = [] then
+    setCl { s with buf := s.buf ++ [.item i] } t (.setRetTrue i)
+  else setCl s t (.setRetDrop i)
+
+def stSetRetTrue (s : State) (t : Tid) (i : Item) : State :=
+  logEv (setCl s t .idle) (.setRet t i.value true)
+
+def stSetRetDrop (cfg : Cfg) (s : State) (t : Tid) (i : Item) : State :=
+  if dropIsUpdate i.flag.code then logEv (setCl s t .idle) (.setRet t i.value true)
+  else logEv (setCl (metAdd cfg s fun m => { m with dropSets := m.dropSets + 1 }) t .idle)
+              (.setRet t i.value false)
+
+-- Del -------------------------------------------------------------------
+def stDelStart (s : State) (t : Tid) (h : Hash) (c : Conf) : State :=
+  if s.closed then logEv (setCl s t .idle) (.delRet t h) else
+  let r := storeDel s.store s.em h c
+  setCl { s with store := r.1, em := r.2.1 } t (.delExit h c r.2.2.2)
+
+def stDelExit (s : State) (t : Tid) (h : Hash) (c : Conf) (prev : Val) : State :=
+  setCl (cbExit s prev) t (.delSend h c)
+
+def stDelSend (cfg : Cfg) (s : State) (t : Tid) (h : Hash) (c : Conf) : State :=
+  sendBlocking cfg s t (.item ⟨.del, h, c, 0, 0, Gen.zeroTime⟩) (.delSent h) (.delBlocked h)
+
+def stDelSent (s : State) (t : Tid) (h : Hash) : State := logEv (setCl s t .idle) (.delRet t h)
+
+-- Wait ------------------------------------------------------------------
+def stWaitStart (s : State) (t : Tid) : State :=
+  if s.closed then logEv (setCl s t .idle) (.waitRet t) else setCl s t .waitSend
+
+def stWaitSend (cfg : Cfg) (s : State) (t : Tid) : State :=
+  sendBlocking cfg { s with nextMarker := s.nextMarker + 1 } t (.marker s.nextMarker)
+    (.waitRecv s.nextMarker) (.waitBlocked s.nextMarker)
+
+def stWaitRecv (s : State) (t : Tid) (id : Nat) : Option State :=
+  if s.closedMarkers.contains id then some (setCl s t .waitDone) else none
+
+def stWaitDone (s : State) (t : Tid) : State := logEv (setCl s t .idle) (.waitRet t)
+
+-- Get -------------------------------------------------------------------
+/-- closed check and ring push; the stripe may flush to the policy (kept) or be dropped -/
+def stGetStart (cfg : Cfg) (s : State) (t : Tid) (h : Hash) (c : Conf) (ch : Choice) : Option State :=
+  if s.closed then some (logEv (setCl s t .idle) (.getRet t h c none)) else
+  let s1 := { s with ringPending := s.ringPending + 1 }
+  match ch with
+  | .none => some (setCl s1 t (.getRead h c))
+  | .flush kept n =>
+    if n = 0 ∨ n > s1.ringPending then none else
+    let s2 := { s1 with ringPending := s1.ringPending - n }
+    let s3 := metAdd cfg s2 fun m =>
+      if kept then { m with keepGets := m.keepGets + BitVec.ofNat 64 n }
+      else { m with dropGets := m.dropGets + BitVec.ofNat 64 n }
+    some (setCl s3 t (.getRead h c))
+  | _ => none
+
+def stGetRead (s : State) (t : Tid) (h : Hash) (c : Conf) : State :=
+  setCl s t (.getCheck h c (s.store.lookup h))
+
+def stGetCheck (s : State) (t : Tid) (h : Hash) (c : Conf) (e : Option Entry) : State :=
+  setCl s t (.getMetric h c (getResult c e s.clock))
+
+def stGetMetric (cfg : Cfg) (s : State) (t : Tid) (h : Hash) (c : Conf) (r : Option Val) : State :=
+  let s1 := metAdd cfg s fun m =>
+    if r.isSome then { m with hit := m.hit + 1 } else { m with miss := m.miss + 1 }
+  logEv (setCl s1 t .idle) (.getRet t h c r)
+
+-- GetTTL (no closed check in the real code) -------------------------------
+def stTtlRead (s : State) (t : Tid) (h : Hash) (c : Conf) : State :=
+  setCl s t (.ttlCheck h c (s.store.lookup h))
+
+def stTtlCheck (s : State) (t : Tid) (h : Hash) (c : Conf) (e : Option Entry) : State :=
+  match getResult c e s.clock with
+  | none => logEv (setCl s t .idle) (.ttlRet t h c 0 false)
+  | some _ => setCl s t (.ttlExp h c)
+
+def stTtlExp (s : State) (t : Tid) (h : Hash) (c : Conf) : State :=
+  let exp := expirationOf s.store h
+  if getTTLNoExpiry exp then logEv (setCl s t .idle) (.ttlRet t h c 0 true)
+  else setCl s t (.ttlNow h c exp)
+
+def stTtlNow (s : State) (t : Tid) (h : Hash) (c : Conf) (exp : Time) : State :=
+  if getTTLExpired s.clock exp then logEv (setCl s t .idle) (.ttlRet t h c 0 false)
+  else setCl s t (.ttlUntil h c exp)
+
+def stTtlUntil (s : State) (t : Tid) (h : Hash) (c : Conf) (exp : Time) : State :=
+  logEv (setCl s t .idle) (.ttlRet t h c (getTTLRemaining s.clock exp) true)
+
+-- IterValues ------------------------------------------------------------
+def stIterStart (s : State) (t : Tid) (stopAt : Nat) : State :=
+  if s.closed then logEv (setCl s t .idle) (.iterRet t []) else setCl s t (.iterShard 0 stopAt [])
+
+def stIterShard (s : State) (t : Tid) (k stopAt : Nat) (seen : List Val) (ch : Choice) : Option State :=
+  match ch with
+  | .order ks =>
     if k ≥ numShards.toNat then none else
     if !isShardOrder s.store k ks then none else
-    let (seen', stopped) := iterVisit s.store s.clock stopAt ks seen
-    if stopped ∨ k + 1 = numShards.toNat then some (logEv (setCl s t .idle) (.iterRet t seen'))
-    else some (setCl s t (.iterShard (k + 1) stopAt seen'))
-  -- Clear / Close ------------------------------------------------------------
-  | .clrStart closing, .none =>
-    if s.closed then some (logEv (setCl s t .idle) (if closing then .closeRet t else .clearRet t))
-    else some (setCl s t (.clrStop closing))
-  -- (.clrStop → .clrDone happens in the applier's `selStop`, .clrDone → .clrDrain in `Action.done`)
-  | .clrDrain closing, .none =>
-    -- one iteration of the drain loop
-    match recvBuf s with
-    | none => some (setCl s t (.clrPolicy closing))
-    | some (.marker id, s1) => some { s1 with closedMarkers := id :: s1.closedMarkers }
-    | some (.item i, s1) =>
-      if clearEvictsItem i.flag.code then some (cbEvict s1 i.key i.conflict i.value i.cost) else some s1
-  | .clrPolicy closing, .none =>
-    some (setCl { s with pol := { s.pol with costs := AMap.empty, used := 0 } } t (.clrShard closing 0))
-  | .clrShard closing k, .order ks =>
+    let r := iterVisit s.store s.clock stopAt ks seen
+    if r.2 ∨ k + 1 = numShards.toNat then some (logEv (setCl s t .idle) (.iterRet t r.1))
+    else some (setCl s t (.iterShard (k + 1) stopAt r.1))
+  | _ => none
+
+-- Clear / Close ------------------------------------------------------------
+def stClrStart (s : State) (t : Tid) (closing : Bool) : State :=
+  if s.closed then logEv (setCl s t .idle) (if closing then .closeRet t else .clearRet t)
+  else setCl s t (.clrStop closing)
+
+/-- one iteration of `Clear`'s drain loop -/
+def stClrDrain (s : State) (t : Tid) (closing : Bool) : State :=
+  match recvBuf s with
+  | none => setCl s t (.clrPolicy closing)
+  | some (.marker id, s1) => { s1 with closedMarkers := id :: s1.closedMarkers }
+  | some (.item i, s1) =>
+    if clearEvictsItem i.flag.code then cbEvict s1 i.key i.conflict i.value i.cost else s1
+
+def stClrPolicy (s : State) (t : Tid) (closing : Bool) : State :=
+  setCl { s with pol := { s.pol with costs := AMap.empty, used := 0 } } t (.clrShard closing 0)
+
+def stClrShard (s : State) (t : Tid) (closing : Bool) (k : Nat) (ch : Choice) : Option State :=
+  match ch with
+  | .order ks =>
     if k ≥ numShards.toNat then none else
     if !isShardOrder s.store k ks then none else
     let s1 := evictAll s s.store ks
     let s2 := { s1 with store := eraseAll s1.store ks }
     some (setCl s2 t (if k + 1 = numShards.toNat then .clrEm closing else .clrShard closing (k + 1)))
-  | .clrEm closing, .none => some (setCl { s with em := s.em.clear s.clock } t (.clrMetrics closing))
-  | .clrMetrics closing, .none =>
-    some (setCl (if cfg.metricsOn then { s with met := {} } else s) t (.clrRestart closing))
-  | .clrRestart closing, .none =>
-    -- `go c.processItems()`
-    let s1 := { s with app := .idle }
-    if closing then some (setCl s1 t .clsStop) else some (logEv (setCl s1 t .idle) (.clearRet t))
-  | .clsFinish, .none =>
-    some (logEv (setCl { s with closed := true, app := .dead } t .idle) (.closeRet t))
-  -- MaxCost / UpdateMaxCost / RemainingCost -----------------------------------
-  | .updMax m, .none => some (setCl { s with pol := { s.pol with maxCost := m } } t .idle)
-  | .readMax, .none => some (logEv (setCl s t .idle) (.maxRet t s.pol.maxCost))
-  | .readRem, .none => some (logEv (setCl s t .idle) (.remRet t (s.pol.maxCost - s.pol.used)))
-  | _, _ => none
+  | _ => none
+
+def stClrEm (s : State) (t : Tid) (closing : Bool) : State :=
+  setCl { s with em := s.em.clear s.clock } t (.clrMetrics closing)
+
+def stClrMetrics (cfg : Cfg) (s : State) (t : Tid) (closing : Bool) : State :=
+  setCl (if cfg.metricsOn then { s with met := {} } else s) t (.clrRestart closing)
+
+/-- `go c.processItems()`, then return (Clear) or go on to the second stop (Close) -/
+def stClrRestart (s : State) (t : Tid) (closing : Bool) : State :=
+  let s1 := { s with app := .idle }
+  if closing then setCl s1 t .clsStop else logEv (setCl s1 t .idle) (.clearRet t)
+
+def stClsFinish (s : State) (t : Tid) : State :=
+  logEv (setCl { s with closed := true, app := .dead } t .idle) (.closeRet t)
+
+-- MaxCost / UpdateMaxCost / RemainingCost -----------------------------------
+def stUpdMax (s : State) (t : Tid) (m : Int) : State :=
+  setCl { s with pol := { s.pol with maxCost := m } } t .idle
+def stReadMax (s : State) (t : Tid) : State := logEv (setCl s t .idle) (.maxRet t s.pol.maxCost)
+def stReadRem (s : State) (t : Tid) : State :=
+  logEv (setCl s t .idle) (.remRet t (s.pol.maxCost - s.pol.used))
+
+def clientStep (cfg : Cfg) (s : State) (t : Tid) (ch : Choice) : Option State :=
+  match s.cl t with
+  | .idle => none
+  | .setStart h c v cost ttl => needNone ch (some (stSetStart s t h c v cost ttl))
+  | .setUpd i => needNone ch (some (stSetUpd cfg s t i))
+  | .setExit i prev => needNone ch (some (stSetExit s t i prev))
+  | .setSend i => needNone ch (some (stSetSend cfg s t i))
+  | .setRetTrue i => needNone ch (some (stSetRetTrue s t i))
+  | .setRetDrop i => needNone ch (some (stSetRetDrop cfg s t i))
+  | .delStart h c => needNone ch (some (stDelStart s t h c))
+  | .delExit h c prev => needNone ch (some (stDelExit s t h c prev))
+  | .delSend h c => needNone ch (some (stDelSend cfg s t h c))
+  | .delBlocked _ => none
+  | .delSent h => needNone ch (some (stDelSent s t h))
+  | .waitStart => needNone ch (some (stWaitStart s t))
+  | .waitSend => needNone ch (some (stWaitSend cfg s t))
+  | .waitBlocked _ => none
+  | .waitRecv id => needNone ch (stWaitRecv s t id)
+  | .waitDone => needNone ch (some (stWaitDone s t))
+  | .getStart h c => stGetStart cfg s t h c ch
+  | .getRead h c => needNone ch (some (stGetRead s t h c))
+  | .getCheck h c e => needNone ch (some (stGetCheck s t h c e))
+  | .getMetric h c r => needNone ch (some (stGetMetric cfg s t h c r))
+  | .ttlRead h c => needNone ch (some (stTtlRead s t h c))
+  | .ttlCheck h c e => needNone ch (some (stTtlCheck s t h c e))
+  | .ttlExp h c => needNone ch (some (stTtlExp s t h c))
+  | .ttlNow h c exp => needNone ch (some (stTtlNow s t h c exp))
+  | .ttlUntil h c exp => needNone ch (some (stTtlUntil s t h c exp))
+  | .iterStart n => needNone ch (some (stIterStart s t n))
+  | .iterShard k n seen => stIterShard s t k n seen ch
+  | .clrStart closing => needNone ch (some (stClrStart s t closing))
+  | .clrStop _ => none          -- → .clrDone happens in the applier's `selStop`
+  | .clrDone _ => none          -- → .clrDrain happens in `Action.done`
+  | .clrDrain closing => needNone ch (some (stClrDrain s t closing))
+  | .clrPolicy closing => needNone ch (some (stClrPolicy s t closing))
+  | .clrShard closing k => stClrShard s t closing k ch
+  | .clrEm closing => needNone ch (some (stClrEm s t closing))
+  | .clrMetrics closing => needNone ch (some (stClrMetrics cfg s t closing))
+  | .clrRestart closing => needNone ch (some (stClrRestart s t closing))
+  | .clsStop => none
+  | .clsDone => none
+  | .clsFinish => needNone ch (some (stClsFinish s t))
+  | .updMax m => needNone ch (some (stUpdMax s t m))
+  | .readMax => needNone ch (some (stReadMax s t))
+  | .readRem => needNone ch (some (stReadRem s t))
 
 def spawnStep (s : State) (t : Tid) (c : Call) : Option State :=
   match s.cl t with
@@ -624,78 +721,131 @@ def firstNonEmpty : List (AMap Hash Conf) → List (AMap Hash Conf)
 
 def afterVictims (vs : List (Hash × Int)) : APc := if vs.isEmpty then .idle else .victims vs
 
-def applierStep (cfg : Cfg) (s : State) (ch : Choice) : Option State :=
-  match s.app, ch with
-  | .idle, .selItem =>
-    match recvBuf s with
+-- receive -----------------------------------------------------------------------
+def apSelItem (s : State) : Option State :=
+  match recvBuf s with
+  | none => none
+  | some (.marker id, s1) => some { s1 with app := .marker id }
+  | some (.item i, s1) => some { s1 with app := .item i }
+
+def apSelStop (s : State) (t : Tid) : Option State :=
+  match s.cl t with
+  | .clrStop closing => some (setCl { s with app := .stopAck } t (.clrDone closing))
+  | .clsStop => some (setCl { s with app := .stopAck } t .clsDone)
+  | _ => none
+
+def apIdle (s : State) (ch : Choice) : Option State :=
+  match ch with
+  | .selItem => apSelItem s
+  | .selTick => some { s with app := .tick }
+  | .selStop t => apSelStop s t
+  | _ => none
+
+def apMarker (s : State) (id : Nat) : State :=
+  { s with app := .idle, closedMarkers := id :: s.closedMarkers }
+
+/-- cost pre-processing: `Config.Cost` when the cost is 0, then the internal per-item cost -/
+def itemCost (cfg : Cfg) (i : Item) : Int :=
+  let c1 := match cfg.costFn with
+    | some f => if useCostFn (w64 i.cost) true i.flag.code then f i.value else i.cost
+    | none => i.cost
+  if addInternalCost cfg.ignoreInternal then c1 + itemSize.toInt else c1
+
+def apItem (cfg : Cfg) (s : State) (i : Item) : State :=
+  { s with app := .costed { i with cost := itemCost cfg i } }
+
+def apCostedNew (cfg : Cfg) (s : State) (i : Item) (ch : Choice) : Option State :=
+  match ch with
+  | .add victims added =>
+    match polAdd cfg.metricsOn s.pol s.met i.key i.cost victims added with
     | none => none
-    | some (.marker id, s1) => some { s1 with app := .marker id }
-    | some (.item i, s1) => some { s1 with app := .item i }
-  | .idle, .selTick => some { s with app := .tick }
-  | .idle, .selStop t =>
-    match s.cl t with
-    | .clrStop closing => some (setCl { s with app := .stopAck } t (.clrDone closing))
-    | .clsStop => some (setCl { s with app := .stopAck } t .clsDone)
-    | _ => none
-  | .marker id, .none => some { s with app := .idle, closedMarkers := id :: s.closedMarkers }
-  | .item i, .none =>
-    let c1 := match cfg.costFn with
-      | some f => if useCostFn (w64 i.cost) true i.flag.code then f i.value else i.cost
-      | none => if useCostFn (w64 i.cost) false i.flag.code then i.cost else i.cost
-    let c2 := if addInternalCost cfg.ignoreInternal then c1 + itemSize.toInt else c1
-    some { s with app := .costed { i with cost := c2 } }
-  | .costed i, ch =>
-    match i.flag, ch with
-    | .new, .add victims added =>
-      match polAdd cfg.metricsOn s.pol s.met i.key i.cost victims added with
-      | none => none
-      | some (p, m) => some { s with pol := p, met := m, app := .added i victims added }
-    | .upd, .none =>
-      let (p, m, _) := polUpdate cfg.metricsOn s.pol s.met i.key i.cost
-      some { s with pol := p, met := m, app := .idle }
-    | .del, .none =>
-      let (p, m) := polDel cfg.metricsOn s.pol s.met i.key
-      some { s with pol := p, met := m, app := .tombPolicy i }
-    | _, _ => none
-  | .added i victims ok, .none =>
-    if ok then
-      let (st, em) := storeSet cfg s.store s.em i
-      let s1 := metAdd cfg { s with store := st, em := em } fun m => { m with keyAdd := m.keyAdd + 1 }
-      some { s1 with app := afterVictims victims }
-    else
-      some { cbReject s i.key i.conflict i.value i.cost with app := afterVictims victims }
-  | .victims ((h, cost) :: rest), .none =>
-    let (st, em, c, v) := storeDel s.store s.em h 0#64
-    some { s with store := st, em := em, app := .victimEvict h cost c v rest }
-  | .victimEvict h cost c v rest, .none =>
-    some { cbEvict s h c v cost with app := afterVictims rest }
-  | .tombPolicy i, .none =>
-    let (st, em, _, v) := storeDel s.store s.em i.key i.conflict
-    some { s with store := st, em := em, app := .tombStore v }
-  | .tombStore v, .none => some { cbExit s v with app := .idle }
-  -- the sweep ------------------------------------------------------------------
-  | .tick, .none =>
-    let (em, bs) := s.em.grab s.clock
-    some { s with em := em, app := .sweep s.clock bs }
-  | .sweep now bs, ch =>
-    match firstNonEmpty bs, ch with
-    | [], .none => some { s with app := .idle }
-    | b :: rest, .key k =>
-      match b.lookup k with
-      | none => none
-      | some c => some { s with app := .swKey now k c (b.erase k :: rest) }
-    | _, _ => none
-  | .swKey now k c bs, .none =>
-    let (st, em, v, expr, removed) := storeDelExpired s.store s.em k c now
-    if removed then some { s with store := st, em := em, app := .swStoreDel now k c expr v bs }
-    else some { s with app := .sweep now bs }
-  | .swStoreDel now k c expr v bs, .none =>
-    let cost := polCost s.pol k
-    let (p, m) := polDel cfg.metricsOn s.pol s.met k
-    some { s with pol := p, met := m, app := .swPolDel now k c expr cost v bs }
-  | .swPolDel now k c _ cost v bs, .none =>
-    some { cbEvict s k c v cost with app := .sweep now bs }
+    | some pm => some { s with pol := pm.1, met := pm.2, app := .added i victims added }
+  | _ => none
+
+def apCostedUpd (cfg : Cfg) (s : State) (i : Item) : State :=
+  let r := polUpdate cfg.metricsOn s.pol s.met i.key i.cost
+  { s with pol := r.1, met := r.2.1, app := .idle }
+
+def apCostedDel (cfg : Cfg) (s : State) (i : Item) : State :=
+  let r := polDel cfg.metricsOn s.pol s.met i.key
+  { s with pol := r.1, met := r.2, app := .tombPolicy i }
+
+def apCosted (cfg : Cfg) (s : State) (i : Item) (ch : Choice) : Option State :=
+  match i.flag with
+  | .new => apCostedNew cfg s i ch
+  | .upd => needNone ch (some (apCostedUpd cfg s i))
+  | .del => needNone ch (some (apCostedDel cfg s i))
+
+def apAdded (cfg : Cfg) (s : State) (i : Item) (victims : List (Hash × Int)) (ok : Bool) : State :=
+  if ok then
+    let r := storeSet cfg s.store s.em i
+    let s1 := metAdd cfg { s with store := r.1, em := r.2 } fun m => { m with keyAdd := m.keyAdd + 1 }
+    { s1 with app := afterVictims victims }
+  else
+    { cbReject s i.key i.conflict i.value i.cost with app := afterVictims victims }
+
+def apVictims (s : State) (vs : List (Hash × Int)) : Option State :=
+  match vs with
+  | [] => none
+  | (h, cost) :: rest =>
+    let r := storeDel s.store s.em h 0#64
+    some { s with store := r.1, em := r.2.1, app := .victimEvict h cost r.2.2.1 r.2.2.2 rest }
+
+def apVictimEvict (s : State) (h : Hash) (cost : Int) (c : Conf) (v : Val) (rest : List (Hash × Int)) : State :=
+  { cbEvict s h c v cost with app := afterVictims rest }
+
+def apTombPolicy (s : State) (i : Item) : State :=
+  let r := storeDel s.store s.em i.key i.conflict
+  { s with store := r.1, em := r.2.1, app := .tombStore r.2.2.2 }
+
+def apTombStore (s : State) (v : Val) : State := { cbExit s v with app := .idle }
+
+-- the sweep ------------------------------------------------------------------
+def apTick (s : State) : State :=
+  let r := s.em.grab s.clock
+  { s with em := r.1, app := .sweep s.clock r.2 }
+
+def apSweep (s : State) (now : Time) (bs : List (AMap Hash Conf)) (ch : Choice) : Option State :=
+  match firstNonEmpty bs, ch with
+  | [], .none => some { s with app := .idle }
+  | b :: rest, .key k =>
+    match b.lookup k with
+    | none => none
+    | some c => some { s with app := .swKey now k c (b.erase k :: rest) }
   | _, _ => none
+
+def apSwKey (s : State) (now : Time) (k : Hash) (c : Conf) (bs : List (AMap Hash Conf)) : State :=
+  let r := storeDelExpired s.store s.em k c now
+  if r.2.2.2.2 then { s with store := r.1, em := r.2.1, app := .swStoreDel now k c r.2.2.2.1 r.2.2.1 bs }
+  else { s with app := .sweep now bs }
+
+def apSwStoreDel (cfg : Cfg) (s : State) (now : Time) (k : Hash) (c : Conf) (expr : Time) (v : Val)
+    (bs : List (AMap Hash Conf)) : State :=
+  let r := polDel cfg.metricsOn s.pol s.met k
+  { s with pol := r.1, met := r.2, app := .swPolDel now k c expr (polCost s.pol k) v bs }
+
+def apSwPolDel (s : State) (now : Time) (k : Hash) (c : Conf) (cost : Int) (v : Val)
+    (bs : List (AMap Hash Conf)) : State :=
+  { cbEvict s k c v cost with app := .sweep now bs }
+
+def applierStep (cfg : Cfg) (s : State) (ch : Choice) : Option State :=
+  match s.app with
+  | .idle => apIdle s ch
+  | .marker id => needNone ch (some (apMarker s id))
+  | .item i => needNone ch (some (apItem cfg s i))
+  | .costed i => apCosted cfg s i ch
+  | .added i victims ok => needNone ch (some (apAdded cfg s i victims ok))
+  | .victims vs => needNone ch (apVictims s vs)
+  | .victimEvict h cost c v rest => needNone ch (some (apVictimEvict s h cost c v rest))
+  | .tombPolicy i => needNone ch (some (apTombPolicy s i))
+  | .tombStore v => needNone ch (some (apTombStore s v))
+  | .tick => needNone ch (some (apTick s))
+  | .sweep now bs => apSweep s now bs ch
+  | .swKey now k c bs => needNone ch (some (apSwKey s now k c bs))
+  | .swStoreDel now k c expr v bs => needNone ch (some (apSwStoreDel cfg s now k c expr v bs))
+  | .swPolDel now k c _ cost v bs => needNone ch (some (apSwPolDel s now k c cost v bs))
+  | .stopAck => none
+  | .dead => none
 
 /-- Rendezvous on the unbuffered `done` channel. -/
 def doneStep (s : State) (t : Tid) : Option State :=
